@@ -57,3 +57,21 @@ M("c02-sn-wrap", "C02", "flexstack/geonet/router.py",
   "self.sequence_number = (self.sequence_number + 1) % (2**16 - 1)", "self.sequence_number = (self.sequence_number + 1) % (2**16)", "SN modulus 2^16 instead of SN_MAX")
 M("c02-heading-mask", "C02", "flexstack/geonet/position_vector.py",
   "        h = data_as_int & 0xFFFF\n", "        h = data_as_int & 0x7FFF\n", "heading decoded with 15 bits")
+
+# ---------------------------------------------------------------- C08
+M("c08-ge", "C08", "flexstack/geonet/location_table.py",
+  "elif position_vector.tst > self.position_vector.tst:", "elif position_vector.tst >= self.position_vector.tst:", "equal timestamp replaces the stored PV")
+M("c08-tst-half", "C08", "flexstack/geonet/position_vector.py",
+  "and ((self.msec - __o.msec) <= (2**32) / 2)", "and ((self.msec - __o.msec) <= (2**32) / 4)", "serial comparison window shrunk to a quarter")
+M("c08-tsb-neighbour", "C08", "flexstack/geonet/location_table.py",
+  "        # Step 5b – set IS_NEIGHBOUR = FALSE only for new entries (NOTE 1: unchanged otherwise)\n        if is_new_entry:\n            self.is_neighbour = False",
+  "        self.is_neighbour = False", "TSB always clears IS_NEIGHBOUR")
+M("c08-lifetime-unit", "C08", "flexstack/geonet/location_table.py",
+  "lifetime_ms = self.mib.itsGnLifetimeLocTE * 1000", "lifetime_ms = self.mib.itsGnLifetimeLocTE * 100", "lifetime taken in 1/10 s")
+M("c08-no-dad", "C08", "flexstack/geonet/router.py",
+  "            self.duplicate_address_detection(ls_reply_header.so_pv.gn_addr)\n", "", "DAD skipped for LS reply")
+M("c08-ahead-purged", "C08", "flexstack/geonet/location_table.py",
+  "                or entry.position_vector.tst > current_time\n", "", "entries ahead of the clock purged again")
+M("c08-guc-neighbour", "C08", "flexstack/geonet/location_table.py",
+  "        # IS_NEIGHBOUR = FALSE only for new entry (NOTE 2: unchanged otherwise)\n        if is_new_entry:\n            entry.is_neighbour = False",
+  "        entry.is_neighbour = not is_new_entry", "GUC marks an existing entry as neighbour")
